@@ -11,6 +11,10 @@ if "--round2" in args:
     args.remove("--round2")
     root = "/tmp/seed2"
     rename = {"A": "C", "B": "D"}
+if "--round7" in args:
+    args.remove("--round7")
+    root = "/tmp/seed7"
+    rename = {"A": "M", "B": "N"}
 if "--round6" in args:
     args.remove("--round6")
     root = "/tmp/seed6"
